@@ -154,6 +154,19 @@ Definition arms_writes (arms : list (list astmt)) : list name :=
   flat_map (fun a => flat_map (fun s => swrites (to_t s)) a) arms.
 Definition after_arms (t : tenv) (arms : list (list astmt)) : tenv := t_untrack (arms_writes arms) t.
 
+(* top-level statements AFTER the if / try statement: folded against [after_arms] *)
+Fixpoint post_lens (t : tenv) (ss : list tstmt) : list (option nat) :=
+  match ss with
+  | [] => []
+  | s :: r =>
+      match s with
+      | TGetLen _ y _ _ => match t_cur t y with Some cur => Some (length cur) | None => None end
+      | _ => None
+      end :: post_lens (track1 false t s) r
+  end.
+Definition after_lens (pre : list tstmt) (arms : list (list astmt)) (post : list tstmt) : list (option nat) :=
+  post_lens (after_arms (fst (track false [] [] (ungated pre))) arms) post.
+
 (* ------------------------------------------------------------------ witnesses *)
 Local Open Scope Z_scope.
 (* l0 = [10, 20, 30]; l1 = [7, 8]
